@@ -449,15 +449,21 @@ class PyToPy(GenericTranspiler):
     """
     cache_subkey = self.get_caching_key(user_context)
 
-    if self._cache.has(fn, cache_subkey):
-      # Fast path: use a lock-free check.
-      factory = self._cached_factory(fn, cache_subkey)
+    # Note: single lookups are used, rather than `has` followed by indexing: the
+    # cache keys are weak references, and an entry may vanish in between.
+    # Fast path: use a lock-free check.
+    factory = self._cache.get(fn, cache_subkey)
+    if factory is not None:
+      logging.log(3, 'Cache hit for %s subkey %s: %s', fn, cache_subkey,
+                  factory)
 
     else:
       with self._cache_lock:
         # Check again under lock.
-        if self._cache.has(fn, cache_subkey):
-          factory = self._cached_factory(fn, cache_subkey)
+        factory = self._cache.get(fn, cache_subkey)
+        if factory is not None:
+          logging.log(3, 'Cache hit for %s subkey %s: %s', fn, cache_subkey,
+                      factory)
 
         else:
           logging.log(1, '%s is not cached for subkey %s', fn, cache_subkey)
